@@ -45,6 +45,11 @@ FUNCTIONS = [
     ("arraylist.c", "array_list_add"),
     ("arraylist.c", "array_list_insert_idx"),
     ("json_object.c", "json_object_int_inc"),
+    # functions with one loop (translated as a recursive definition over explicit fuel)
+    ("json_util.c", "_json_object_to_fd"),
+    ("linkhash.c", "lh_table_lookup_entry_w_hash"),
+    ("json_pointer.c", "is_valid_index"),
+    ("arraylist.c", "array_list_del_idx"),
 ]
 
 
@@ -79,6 +84,9 @@ def ctype(t):
     return ("R", 0, False)
 
 
+RECORD_SIZES = {}      # "struct lh_entry" -> 40, filled per translation unit by resolve_sizes
+
+
 def elem_size(t):
     """size of the pointee of pointer type t (for pointer arithmetic); None when unknown"""
     q = t.get("desugaredQualType", t.get("qualType", ""))
@@ -86,6 +94,8 @@ def elem_size(t):
     if not q.endswith("*"):
         return None
     base = {"qualType": q[:-1].strip()}
+    if re.sub(r"\s+", " ", base["qualType"]) in RECORD_SIZES:
+        return RECORD_SIZES[re.sub(r"\s+", " ", base["qualType"])]
     if base["qualType"] == "void":
         return 1            # gcc extension
     k, bits, _ = ctype(base)
@@ -122,6 +132,12 @@ class Fn:
     def __init__(self, ast, name, enumvals=None):
         self.name = name
         self.enumvals = enumvals or {}
+        self.in_loop = False      # inside the body of the (single-level) loop being translated
+        self.no_hoist = False
+        self.loop_brk = None
+        self.loop_cnt = None
+        self.fn_inputs = set()    # inputs created inside a loop: one value per iteration (Nat -> Int)
+        self.nloops = 0
         self.ast = ast
         self.params = []          # (lean name, ctype) of the C parameters
         self.inputs = []          # (lean name, ctype, comment): memory reads, call results, havoc values, in order of creation
@@ -136,6 +152,15 @@ class Fn:
     def fresh(self, prefix, what):
         self.counter += 1
         return "%s%d_%s" % (prefix, self.counter, re.sub(r"[^A-Za-z0-9_]", "_", what))
+
+    def new_input(self, prefix, what, ty, comment):
+        """a value the outside world supplies; inside a loop there is one per iteration"""
+        nm = self.fresh(prefix, what)
+        self.inputs.append((nm, ty, comment + (" (one value per iteration of the loop)" if self.in_loop else "")))
+        if self.in_loop:
+            self.fn_inputs.add(nm)
+            return "(%s c2l_it)" % nm
+        return nm
 
     def path_of(self, n):
         """fixed access path of an lvalue expression, or None: x, p->f, p->f.g, *p (p a parameter), errno"""
@@ -210,6 +235,9 @@ class Fn:
             return self.ex(n["inner"][0], env, k)
         if kind == "IntegerLiteral":
             return k(lit(int(n["value"])), env)
+        if kind == "StringLiteral":
+            # the address of a string literal: some fixed non-null address (only its identity matters)
+            return k("(CSem.addrOf %s)" % json.dumps(re.sub(r"[^ -~]", "?", n.get("value", "\"\"").strip('"'))[:40]), env)
         if kind == "CharacterLiteral":
             return k(lit(int(n["value"])), env)
         if kind == "UnaryExprOrTypeTraitExpr":
@@ -270,7 +298,7 @@ class Fn:
     def hoistk(self, k, env):
         """make a continuation that is about to be used twice cheap to duplicate (it is generated once)"""
         probe = k("«v»", env)
-        if len(probe) < 160:
+        if len(probe) < 160 or self.no_hoist:
             return lambda t, e: probe.replace("«v»", self.atom(t))
         jn = "%s.j%d" % (self.name, len(self.joins) + 1)
         vars_ = list(env)
@@ -309,8 +337,7 @@ class Fn:
             return k(p, env)
         # load through a computed address: an input of the function
         def got(a, e):
-            nm = self.fresh("m", self.describe(lv))
-            self.inputs.append((nm, ty, "value loaded from %s" % self.describe(lv)))
+            nm = self.new_input("m", self.describe(lv), ty, "value loaded from %s" % self.describe(lv))
             sz = {8: 1, 16: 2, 32: 4, 64: 8}.get(ty[1], 0)
             return self.event("load%d" % sz, [a], e, lambda e2: k(nm, e2))
         return self.addr(lv, env, got)
@@ -412,7 +439,12 @@ class Fn:
             delta = "1" if op == "++" else "(-1)"
             sty = ctype(sub.get("type", {}))
             def upd(old, e):
-                return self.arith("+", old, delta, sty, e, lambda new, e2: self.store(sub, new, e2, lambda e3: k(old if post else new, e3)))
+                # the old value is bound to a name of its own: after the store the variable's name means the new value
+                tmp = self.fresh("v", "old")
+                def stored(new, e2):
+                    nv = self.fresh("v", "new")
+                    return "let %s : Int := %s\n%s" % (nv, new, self.store(sub, nv, e2, lambda e3: k(tmp if post else nv, e3)))
+                return "let %s : Int := %s\n%s" % (tmp, old, self.arith("+", tmp, delta, sty, e, stored))
             return self.load(sub, env, upd)
         raise Untranslatable("unary operator " + op)
 
@@ -470,7 +502,13 @@ class Fn:
         ty = ctype(n.get("type", {}))
         a, b = n["inner"]
         if op == "=":
-            return self.ex(b, env, lambda t, e: self.store(a, t, e, lambda e2: k(t, e2)))
+            def assign(t, e):
+                if is_lit(t) or re.fullmatch(r"[A-Za-z_][A-Za-z0-9_]*", t):
+                    return self.store(a, t, e, lambda e2: k(t, e2))
+                # the value of the assignment is bound before the store (its text may mention the variable assigned)
+                nv = self.fresh("v", "val")
+                return "let %s : Int := %s\n%s" % (nv, t, self.store(a, nv, e, lambda e2: k(nv, e2)))
+            return self.ex(b, env, assign)
         if op == ",":
             return self.ex(a, env, lambda _, e: self.ex(b, e, k))
         if op in ("&&", "||", "<", ">", "<=", ">=", "==", "!="):
@@ -507,7 +545,8 @@ class Fn:
                 def fin(res, e3):
                     if lty != cty and lty[0] == "I":
                         res = self.wrap(res, lty)
-                    return self.store(lv, res, e3, lambda e4: k(res, e4))
+                    nv = self.fresh("v", "val")
+                    return "let %s : Int := %s\n%s" % (nv, res, self.store(lv, nv, e3, lambda e4: k(nv, e4)))
                 return self.arith(op, oldc, tr_, cty if lty[0] != "P" else lty, e2, fin, es)
             return self.ex(rhs, e, go2)
         return self.load(lv, env, go)
@@ -550,7 +589,7 @@ class Fn:
     def hoist0(self, k0, env):
         """continuation without a value, about to be duplicated (it is generated once)"""
         probe = k0(env)
-        if len(probe) < 160:
+        if len(probe) < 160 or self.no_hoist:
             return lambda e: probe
         jn = "%s.j%d" % (self.name, len(self.joins) + 1)
         vars_ = list(env)
@@ -596,15 +635,13 @@ class Fn:
             if a is args[0] and "errno" in env and not name.startswith("mem"):
                 roots = ["errno"] + roots       # a callee may set errno (the mem* functions do not)
             for p in roots:
-                h = self.fresh("h", p)
-                self.inputs.append((h, self.memvars.get(p) or self.locals.get(p) or ("I", 64, True), "value of %s after the call of %s" % (p, name)))
+                h = self.new_input("h", p, self.memvars.get(p) or self.locals.get(p) or ("I", 64, True), "value of %s after the call of %s" % (p, name))
                 text += "let %s : Int := %s\n" % (p, h)
                 if p not in self.locals and p not in self.written:
                     self.written.append(p)
         if rty[0] == "V":
             return text + k("0", env)
-        c = self.fresh("c", name)
-        self.inputs.append((c, rty, "value returned by %s" % name))
+        c = self.new_input("c", name, rty, "value returned by %s" % name)
         return text + k(c, env)
 
     # -- statements: k(env) is the fall-through continuation
@@ -641,8 +678,7 @@ class Fn:
                     return self.ex(init, e, lambda t, e2: "let %s : Int := %s\n%s" % (nm, t, decls(ds[1:], e2 + [nm])))
                 # uninitialised: its indeterminate value is an input of the function, so a theorem that holds for
                 # every value of that input shows that the value is never used
-                u = self.fresh("u", nm)
-                self.inputs.append((u, ty, "indeterminate initial value of the local %s" % nm))
+                u = self.new_input("u", nm, ty, "indeterminate initial value of the local %s" % nm)
                 return "let %s : Int := %s\n%s" % (nm, u, decls(ds[1:], e + [nm]))
             return decls(s.get("inner", []), env)
         if kind == "ReturnStmt":
@@ -662,13 +698,71 @@ class Fn:
         if kind == "SwitchStmt":
             return self.switch(s, env, nxt)
         if kind == "BreakStmt":
-            if brk is None:
-                raise Untranslatable("break outside switch")
-            return brk(env)
-        if kind in ("WhileStmt", "ForStmt", "DoStmt", "GotoStmt", "LabelStmt", "ContinueStmt"):
-            raise Untranslatable("statement kind %s (loops and jumps are outside the translated subset)" % kind)
+            if brk is not None:
+                return brk(env)
+            if self.loop_brk is not None:
+                return self.loop_brk(env)
+            raise Untranslatable("break outside switch / loop")
+        if kind == "ContinueStmt":
+            if self.loop_cnt is None:
+                raise Untranslatable("continue outside a loop")
+            return self.loop_cnt(env)
+        if kind in ("WhileStmt", "ForStmt"):
+            return self.loop(s, env, nxt)
+        if kind in ("DoStmt", "GotoStmt", "LabelStmt"):
+            raise Untranslatable("statement kind %s (do-loops and jumps are outside the translated subset)" % kind)
         # expression statement
         return self.ex(s, env, lambda _, e: nxt(e))
+
+    def loop(self, s, env, nxt):
+        """while / for (not nested): a recursive definition <fn>.loop<k> over explicit fuel; the iteration counter `c2l_it`
+        indexes the values the outside world supplies inside the loop"""
+        if self.in_loop:
+            raise Untranslatable("nested loops")
+        parts = [x for x in s.get("inner", [])]
+        if s["kind"] == "WhileStmt":
+            parts = [x for x in parts if x]          # an absent condition variable is {}
+            init, cond, inc, body = None, parts[0], None, parts[-1]
+        else:
+            if len(parts) != 5:
+                raise Untranslatable("for statement of unexpected shape")
+            init, cond, inc, body = (parts[0] or None), (parts[2] or None), (parts[3] or None), parts[4]
+        if "fuel" not in [i[0] for i in self.inputs]:
+            self.inputs.append(("fuel", ("N", 0, False), "bound on the number of loop iterations the definition unrolls (the theorems show it suffices)"))
+        self.nloops += 1
+        lname = "%s.loop%d" % (self.name, self.nloops)
+
+        def core(env):
+            vars_ = list(env)
+            # the code after the loop: always a join point (the loop definition refers to it)
+            probe = nxt(list(env))
+            jn = "%s.j%d" % (self.name, len(self.joins) + 1)
+            self.joins.append((jn, vars_, probe))
+            rest = lambda e: "%s %s" % (jn, " ".join(vars_))
+            again = lambda e: "%s c2l_fuel (c2l_it + 1) %s" % (lname, " ".join(vars_))
+
+            def after_body(e):
+                if inc is not None:
+                    return self.ex(inc, e, lambda _, e2: again(e2))
+                return again(e)
+            saved = (self.in_loop, self.no_hoist, self.loop_brk, self.loop_cnt)
+            self.in_loop, self.no_hoist, self.loop_brk, self.loop_cnt = True, True, rest, after_body
+
+            def scoped(e):
+                return after_body([v for v in e if v in vars_])
+            try:
+                if cond is None:
+                    btext = self.stmts([body], list(env), scoped, None)
+                else:
+                    btext = self.cond(cond, list(env), lambda e: self.stmts([body], e, scoped, None), lambda e: rest(e))
+            finally:
+                self.in_loop, self.no_hoist, self.loop_brk, self.loop_cnt = saved
+            text = "match c2l_fuel0 with\n| 0 => CSem.outOfFuel\n| c2l_fuel + 1 =>\n%s" % indent(btext)
+            self.joins.append((lname, ["«loop»"] + vars_, text))
+            return "%s fuel 0 %s" % (lname, " ".join(vars_))
+        if init is not None:
+            return self.stmts([init], env, core, None)
+        return core(env)
 
     def assigned_everywhere(self, v, th, el):
         return el is not None and self.assigns(th, v) and self.assigns(el, v)
@@ -787,6 +881,7 @@ class Fn:
         self.out_fields = []
         for attempt in range(6):
             self.inputs, self.joins, self.counter, self.site, self.locals = [], [], 0, 0, {}
+            self.fn_inputs, self.nloops = set(), 0
             before = (list(self.memvars), list(self.written))
             env0 = [p for p, _ in self.params] + list(self.memvars) + ["tr"]
             for p, ty in self.params:
@@ -810,11 +905,19 @@ class Fn:
         mems = list(self.memvars)
         fields = ["ret : Int"] + ["%s : Int" % p for p in self.out_fields] + ["calls : List (String × List Int)"]
         out.append("structure %s.Out where\n%s\n  deriving Repr, DecidableEq\n" % (self.name, "\n".join("  " + f for f in fields)))
-        inputs_sig = " ".join("(%s : Int)" % nm for nm, _, _ in self.inputs)
+        def ity(nm, ty):
+            if ty[0] == "N":
+                return "Nat"
+            return "Nat → Int" if nm in self.fn_inputs else "Int"
+        inputs_sig = " ".join("(%s : %s)" % (nm, ity(nm, ty)) for nm, ty, _ in self.inputs)
         in_names = [nm for nm, _, _ in self.inputs]
-        # join points, in order of creation = inner ones first; they take the environment + the inputs
+        # join points and loops, in order of creation = inner ones first; they take the function's inputs + the environment
         for jn, vars_, jt in self.joins:
-            sig = " ".join("(%s : %s)" % (v, "List (String × List Int)" if v == "tr" else "Int") for v in vars_)
+            isloop = bool(vars_) and vars_[0] == "«loop»"
+            vs = vars_[1:] if isloop else vars_
+            sig = " ".join("(%s : %s)" % (v, "List (String × List Int)" if v == "tr" else "Int") for v in vs)
+            if isloop:
+                sig = "(c2l_fuel0 : Nat) (c2l_it : Nat) " + sig
             out.append("def %s %s %s : Outcome %s.Out :=\n%s\n" % (jn, inputs_sig, sig, self.name, indent(self.fix_joins(jt, in_names))))
         psig = " ".join("(%s : Int)" % p for p, _ in self.params)
         msig = " ".join("(%s : Int)" % p for p in mems)
@@ -833,7 +936,13 @@ class Fn:
         for p in mems:
             pre.append(self.range_prop(p, self.memvars[p]))
         for nm, ty, _ in self.inputs:
-            pre.append(self.range_prop(nm, ty))
+            if ty[0] == "N":
+                continue
+            if nm in self.fn_inputs:
+                rp = self.range_prop("%s i" % nm, ty)
+                pre.append("(∀ i : Nat, %s)" % rp if rp else None)
+            else:
+                pre.append(self.range_prop(nm, ty))
         pre = [x for x in pre if x]
         out.append("/-- every argument, memory cell and external answer lies in the range of its C type -/\ndef %s.Pre %s %s %s : Prop :=\n  %s\n" % (
             self.name, psig, msig, inputs_sig, " ∧ ".join(pre) or "True"))
@@ -887,6 +996,25 @@ def enum_names(n, acc):
     return acc
 
 
+def record_types(n, acc):
+    if isinstance(n, dict):
+        t = n.get("type", {})
+        q = t.get("desugaredQualType", t.get("qualType", ""))
+        q = re.sub(r"\b(const|volatile|restrict)\b", "", q).strip()
+        m = re.fullmatch(r"((?:struct|union) \w+) \*+", re.sub(r"\s+", " ", q))
+        if m:
+            acc.add(m.group(1))
+        for c in n.get("inner", []):
+            record_types(c, acc)
+    return acc
+
+
+def resolve_sizes(repo, cfg, src, recs):
+    """sizeof of the record types the function indexes arrays of, evaluated by clang in the unit of `src`"""
+    vals = resolve_enums(repo, cfg, src, ["sizeof(%s)" % r for r in sorted(recs)])
+    return {k[len("sizeof("):-1]: v for k, v in vals.items()}
+
+
 def resolve_enums(repo, cfg, src, names):
     """values of enumeration constants as the compiler computes them in the translation unit of `src`: a second
     translation unit includes the source file and restates each constant as an explicit enumerator, whose
@@ -900,9 +1028,17 @@ def resolve_enums(repo, cfg, src, names):
     vals = {}
     for d in parse_stream(r.stdout):
         if d.get("kind") == "EnumConstantDecl" and d.get("name", "").startswith("c2l__"):
-            for c in d.get("inner", []):
-                if c.get("kind") == "ConstantExpr" and "value" in c:
-                    vals[names[int(d["name"][5:])]] = int(c["value"])
+            def first_const(n):
+                if n.get("kind") == "ConstantExpr" and "value" in n:
+                    return int(n["value"])
+                for c in n.get("inner", []):
+                    v = first_const(c)
+                    if v is not None:
+                        return v
+                return None
+            v = first_const(d)
+            if v is not None:
+                vals[names[int(d["name"][5:])]] = v
     return vals
 
 
@@ -924,6 +1060,8 @@ def generate(repo, cfg):
             out.append("def %s.untranslatable : String := \"function not found in %s\"\n" % (fn, src))
             continue
         ev = resolve_enums(repo, cfg, src, enum_names(ast, set()))
+        RECORD_SIZES.clear()
+        RECORD_SIZES.update(resolve_sizes(repo, cfg, src, record_types(ast, set())))
         out.append(Fn(ast, fn, ev).lean())
     out.append("end JsonC.Translated\n")
     return "\n".join(out)
